@@ -233,6 +233,13 @@ theorem script_style_content_reparses (cfg : Cfg) (hi : IndentWS cfg) (toks : Li
     exact ⟨out, _, _, _, hout, hlex, doc_reparse cfg hi ps.doctype n st sc kids hs hdt, rfl,
       rawConts_outRoot cfg hi n st sc kids hs⟩
 
+/-- **`pskel` refines `cskel`.**  On trees whose script/style content consists of data blocks only (`RawData`: every tree
+    the tokenizer can give rise to — raw text is reported as data —, in particular every strict tree, `rawData_strict`)
+    `cskel` is a function of `pskel` (`cskel t = canon (skel (pskel t))`): trees with the same `pskel` have the same
+    `cskel`, so `formatter_output_reparses_exact` implies `formatter_output_reparses`. -/
+theorem pskel_refines_cskel (a b : Node) (ha : RawData a) (hb : RawData b) (h : pskel a = pskel b) :
+    cskel a = cskel b := cskel_of_pskel a b ha hb h
+
 /-- what `pskel` keeps, spelled out on the three kinds of data: below pre/code the block itself; outside, the block
     without white space; of script/style outside pre/code the concatenated text without its trailing LF/space/tab run -/
 theorem pskel_keeps (s : Str) (k : Kind) (n : Str) (st : AStore) (sc : Bool) (ind : Str) (kids : List Node) :
